@@ -264,6 +264,10 @@ impl SimDisk {
     pub fn digest(&self) -> u64 {
         self.lock().digest
     }
+    /// True when the last operation that answered `Pending` was never driven to completion.
+    pub fn has_abandoned_op(&self) -> bool {
+        self.lock().pend_left.is_some()
+    }
     pub fn budget_exceeded(&self) -> bool {
         self.lock().budget_exceeded
     }
